@@ -68,6 +68,12 @@ CLAIMS = {
         "Decides for every path of the writer's methods: the sink is called from two sites only, only while no error is parked, inside the panicked bracket, its error is parked; every flush clears the buffer and writes the whole buffer; in the cold path each part of the input is buffered or written exactly once in order (split at capacity - len); the error is taken exactly once and Write::flush reports it; drop flushes unless a sink write panicked; the integer fast path advances by the written length. Canonical decimal text (itoap) and std's write_all loop are trusted.",
         "DESIGN.md §4 C11",
     ),
+    "C12": (
+        "other",
+        "call-graph SCC check, def-use provenance of map keys vs. redefinition tests (sibling agreement), guard/dominance and expression-shape rules over MIR",
+        "Functional equivalence of the renumbered circuit (all circuits, all assignments, all option combinations) is value-level and NOT decided; neither are the const-fold case analysis, hash-consing or completeness of the cycle detection. Decided structural necessary conditions: no recursion (explicit stack), every kind of literal used as a key of the renumbering map passes a redefinition test yielding LitAlreadyDefined, every error variant has a producer on the right path and is propagated with `?`, inputs sorted (descending) before a gate is hashed or pushed, a fresh code before every pushed gate, inputs < latches < gates numbering order, LitMap/transfer polarity xor discipline.",
+        "DESIGN.md §4 C12",
+    ),
     "C13": (
         "other",
         "def-use discipline rules over MIR, sibling comparison of loop bodies, exhaustive abstract interpretation of the scanning behaviour over (offset label, byte class)",
